@@ -124,3 +124,43 @@ def forward_once(run, F):
                                   '`%s` (%s) is used again at line %s after it was forwarded at line %s: the first consumer may have moved from it, so the second one receives a moved-from object' % (p, types[p], G.line(x), e.get('line')))
                     break
     if n == 0: raise Broken('no forwarded parameter found (extractor too old?)')
+
+
+MOVE_FWDREF_EXEMPT = {
+    # (function, parameter): reason
+    ('unifex::_unhandled_done::_done_coro::promise_type::await_transform', 'func'):
+        'the lvalue overload `await_transform(Func&) = delete` is declared next to it: only rvalues can bind, so std::move equals std::forward here',
+}
+
+
+@rule('R-MOVE-FWDREF', ['C05', 'C02', 'C18', 'C13'], floor=100)
+def move_of_forwarding_reference(run, F):
+    """a forwarding-reference parameter `P&& p` (P a template parameter of the function itself) - or a member of it - is never passed through std::move: for an lvalue argument that steals the caller's object (connecting an lvalue sender twice then delivers moved-from values); the forwarding spellings std::forward<P>(p) / static_cast<P&&>(p) / (P&&)p keep an lvalue an lvalue"""
+    n = 0
+    for f in F.funcs:
+        tps = f.get('tparams') or []
+        if not tps or not f.get('blocks'): continue
+        fps = {}
+        for p in f.get('params', []):
+            m = re.match(r'^(\w+) &&(\.\.\.)?$', p['type'])
+            if m and m.group(1) in tps and p['name']: fps[p['name']] = m.group(1)
+        if not fps: continue
+        for pn in fps:
+            n += 1
+            run.inst(site(f), 'forwarding parameter `%s` is forwarded, never std::move()d' % pn, key=(f['qname'], pn))
+        def walk(x, out):
+            if isinstance(x, dict):
+                if x.get('mv') and x.get('op') in ('path', 'call') and (x.get('p') or '').split('.')[0] in fps: out.append(x.get('p'))
+                for v in x.values(): walk(v, out)
+            elif isinstance(x, list):
+                for v in x: walk(v, out)
+        seen = set()
+        for b, i, e in events(f):
+            out = []; walk(e, out)
+            for p in out:
+                pn = p.split('.')[0]
+                if (f['qname'], pn) in MOVE_FWDREF_EXEMPT or (f['qname'], pn) in seen: continue
+                seen.add((f['qname'], pn))
+                run.violation(f['qname'], 'move-of-forwarding-ref:' + pn, '%s:%s' % (f['file'], e.get('line')),
+                              '`%s` is passed through std::move although `%s` is a forwarding reference (%s&&): when the caller passes an lvalue its object is moved from (e.g. a sender connected a second time delivers moved-from values); use static_cast<%s&&>(%s)%s' % (p, pn, fps[pn], fps[pn], pn, p[len(pn):]))
+    if n == 0: raise Broken('no forwarding-reference parameter found (extractor too old?)')
